@@ -48,8 +48,26 @@ void emitLine(const std::string& s)
     fflush(out);
 }
 
+// C20: what an uninitialised local variable of the library reads is whatever the stack held before.  With
+// VERIF_STACK_FILL=<byte> the stack region the next call is going to use is filled with that byte before every
+// operation; two runs of the same workload with different bytes must produce identical logs (TraceSame).  Not set in
+// the memcheck runs: writing the pattern would make the region look initialised.
+static void __attribute__((noinline)) dirtyStack()
+{
+    static const int pattern = [] {
+        const char* e = getenv("VERIF_STACK_FILL");
+        return e ? atoi(e) : -1;
+    }();
+    if (pattern < 0)
+        return;
+    volatile uint8_t region[96 * 1024];
+    for (size_t i = 0; i < sizeof region; ++i)
+        region[i] = static_cast<uint8_t>(pattern);
+}
+
 void noteOp(long k)
 {
+    dirtyStack();
     if (yieldRng)
     {
         const unsigned r = (*yieldRng)() % 8;
